@@ -83,6 +83,10 @@ pub fn run(outdir: &str, seed: u64, thorough: bool) -> serde_json::Value {
         ("aggregate-then-constant", "SELECT COUNT(t.age) AS n, {k} AS one FROM users AS t WHERE t.age > 2{k}"),
         ("constant-before-aggregate-grouped", "SELECT {k} AS one, COUNT(t.age) AS n, t.city AS c FROM users AS t GROUP BY t.city"),
         ("constant-expression-before-aggregate", "SELECT {k} + 1 AS one, AVG(t.amount) AS a, 2 * {k} AS two FROM orders AS t"),
+        // IS NULL over a conjunction / disjunction / negation (it binds tighter than AND, OR and NOT)
+        ("is-null-of-disjunction", "SELECT (t.age > 3{k} OR t.score > 2) IS NULL AS b, t.id AS i FROM users AS t"),
+        ("is-null-of-conjunction", "SELECT (t.score > {k} AND t.score < 8) IS NULL AS b, t.id AS i FROM users AS t"),
+        ("is-null-of-negation", "SELECT (NOT (t.score > {k})) IS NULL AS b, t.id AS i FROM users AS t WHERE (t.age > 30 OR t.score > 5) IS NULL OR t.age > 2{k}"),
         ("constant-before-aggregate-having", "SELECT {k} AS one, SUM(t.amount) AS s FROM orders AS t HAVING SUM(t.amount) > 0"),
         ("using", "SELECT * FROM users AS a JOIN orders AS b USING (id)"),
         ("using-left", "SELECT * FROM orders AS a LEFT JOIN users AS b USING (id)"),
